@@ -174,6 +174,19 @@ func execNonceHistory(a []string) string {
 		}
 		seen[string(iv)] = i
 	}
+	// the other consumer of the random source: 32-bit draws (used for kids / counters by callers); over `count` draws the
+	// number of distinct values must be what a uniform source gives (birthday bound with a wide margin), never a constant
+	distinct := map[uint32]bool{}
+	for i := 0; i < count && i < 100000; i++ {
+		distinct[key.GetRandomUint32()] = true
+	}
+	n := count
+	if n > 100000 {
+		n = 100000
+	}
+	if n >= 100 && len(distinct) < n-n/20-5 {
+		return fmt.Sprintf("RANDOM-UINT32 only %d distinct of %d", len(distinct), n)
+	}
 	return "ok distinct"
 }
 
